@@ -199,7 +199,6 @@ func judgeStall(d1, d2 []gInfo) (string, string) {
 	return "inconclusive", fmt.Sprintf("no virtual-time progress for %v (mutexWait=%q runnable=%v sleepingCallback=%v)", stallBudget, mutexWait, runnable, sleepingCallback)
 }
 
-
 // deepestRepeat returns the library function that occurs most often in one
 // goroutine stack, and how often (runtime.Stack elides the middle of very deep
 // stacks, so 50+50 frames are the most that can be seen).
